@@ -393,7 +393,7 @@ def states_close(s1, s2) -> bool:
 DTYPES = ["bool", "int8", "int16", "int32", "int64", "uint8", "uint16", "uint32", "uint64",
           "float16", "float32", "float64", "longdouble", "complex64", "complex128", "object", "str"]
 SHAPES = ["ok", "T", "r+1", "r-1", "c+1", "c-1", "1d_c", "1d_rc", "3d_1", "3d_2", "trail1", "0d"]
-PATTERNS = ["zeros", "ones", "ramp", "rand", "neg", "mixed", "nan", "inf", "ninf", "huge", "tiny"]
+PATTERNS = ["zeros", "ones", "ramp", "rand", "neg", "mixed", "nan", "inf", "ninf", "huge", "tiny", "nan_neg"]
 LAYOUTS = ["C", "C", "C", "F", "strided", "readonly"]
 OTHER_FORMS = ["list", "none", "scalar", "masked", "dataarray2d"]
 
@@ -420,6 +420,13 @@ def _pattern(pattern: str, n: int, salt: int) -> np.ndarray:
         return -(idx + 1.0 + salt)
     if pattern == "mixed":
         return (idx - (n // 2)) * 3.5 - 0.25 - salt
+    if pattern == "nan_neg":
+        # negative values next to a NaN (added after a seeded change -- `value.min() < 0` instead of
+        # `np.any(value < 0)` -- was missed: NaN swallowed the negative-value guard)
+        v = (idx - (n // 2)) * 3.5 - 0.25 - salt
+        if n > 1:
+            v[-1] = np.nan
+        return v
     if pattern == "huge":
         return (idx + 1.0 + salt) * 1e300
     if pattern == "tiny":
